@@ -1,6 +1,9 @@
 import KanidmModel.Generated.RangeDiffOps
+import KanidmModel.Generated.SupplierMap
 /-
-C10 — model of `ReplicationUpdateVector::range_diff` (server/lib/src/repl/ruv.rs).
+C10 — model of `ReplicationUpdateVector::range_diff` (server/lib/src/repl/ruv.rs) and of the
+decision part of `QueryServerReadTransaction::supplier_provide_changes`
+(server/lib/src/repl/supplier.rs), which maps the status to the reply sent to the consumer.
 
 A RUV range map is an association list `server ↦ (tsMin, tsMax)`; the Rust code
 uses `BTreeMap<Uuid, ReplCidRange>` so keys are distinct and iteration is in key
@@ -90,6 +93,67 @@ def Needed (consumer supplier : Ruv) (k : Nat) (r : Range) : Prop :=
     ((∃ c, lookup consumer k = some c ∧ c.tsMax < s.tsMax ∧ r = ⟨c.tsMax, s.tsMax⟩) ∨
      (lookup consumer k = none ∧ r = ⟨0, s.tsMax⟩))
 
+/-! ### `supplier_provide_changes`: from the range comparison to the reply
+
+The argument order of the `range_diff` call, the arm-by-arm mapping of the status, the
+`ranges.is_empty()` test and the domain test all come from the generated module
+`Kanidm.Gen.SupplierMap`, i.e. from supplier.rs as it is now. -/
+section Supplier
+open Kanidm.Gen.SupplierMap
+
+/-- What `supplier_provide_changes` answers: a unit variant of `ReplIncrementalContext`, or
+`V1 { ranges, .. }` carrying the windows whose changes are sent. -/
+inductive Decision where
+  | reply (r : Reply)
+  | supply (ranges : Ruv)
+deriving DecidableEq, Repr
+
+def kindOf : Status → Kind
+  | .ok _ => .ok
+  | .refresh _ => .refresh
+  | .unwilling _ => .unwilling
+  | .critical _ _ => .critical
+  | .noOverlap => .noOverlap
+
+/-- The payload an arm binds.  The last case cannot occur for a table produced by the
+translator: it only emits `cont s` for an `s` bound by that very arm's pattern. -/
+def payload : Status → Src → Ruv
+  | .ok d, .okRanges => d
+  | .refresh l, .lagRange => l
+  | .unwilling a, .advRange => a
+  | .critical l _, .lagRange => l
+  | .critical _ a, .advRange => a
+  | _, _ => []
+
+/-- After the `match`: `if ranges.is_empty() { return Ok(<reply>) }`, then the changes of
+`ranges` are retrieved and `V1 { ranges (anchored), .. }` is returned. -/
+def afterMatch (ranges : Ruv) : Decision :=
+  match emptyRangesReply with
+  | some r => if ranges.isEmpty then .reply r else .supply ranges
+  | none => .supply ranges
+
+/-- `let supply_ranges = range_diff(&A, &B); let ranges = match supply_ranges { … }; …`
+`consumer` = the request's ranges, `supplier` = `filter_ruv_range(trim_cid)` of the supplier's RUV. -/
+def supplierDecide (consumer supplier : Ruv) : Decision :=
+  let st := if consumerArgFirst then rangeDiff consumer supplier else rangeDiff supplier consumer
+  match supplierMap (kindOf st) with
+  | .ret r => .reply r
+  | .cont s => afterMatch (payload st s)
+
+/-- The whole function: the domain test comes first. -/
+def supplierProvide (sameDomain : Bool) (consumer supplier : Ruv) : Decision :=
+  match domainMismatchReply with
+  | some r => if !sameDomain then .reply r else supplierDecide consumer supplier
+  | none => supplierDecide consumer supplier
+
+def showReply : Reply → String
+  | .domainMismatch => "domainmismatch"
+  | .noChangesAvailable => "nochanges"
+  | .refreshRequired => "refresh"
+  | .unwillingToSupply => "unwilling"
+
+end Supplier
+
 /-! ### Executable rendering for the driver -/
 
 def showRuv (m : Ruv) : String :=
@@ -102,5 +166,9 @@ def showStatus : Status → String
   | .unwilling a => s!"unwilling {showRuv a}"
   | .critical l a => s!"critical {showRuv l} {showRuv a}"
   | .noOverlap => "nooverlap"
+
+def showDecision : Decision → String
+  | .reply r => showReply r
+  | .supply d => s!"supply {showRuv d}"
 
 end Kanidm.RangeDiff
